@@ -1,6 +1,9 @@
 package main
 
-import "verif/layera"
+import (
+	"verif/layera"
+	"verif/layerb"
+)
 
 func init() {
 	propRunners["C12"] = runC12
@@ -27,5 +30,21 @@ func runC12(opt *Options) int {
 			"sequences of several lines for one key at one level follow from the one-step harness by induction (last writer wins)",
 		},
 	}
-	return lr.finish(lr.run(), nil)
+	// Layer B leg: sibling methods with different values of an inheritable setting
+	lb := &lbRun{
+		Opt:        opt,
+		Convs:      layerb.FamilySibling(opt.Thorough()),
+		Check:      layerb.CheckErrors,
+		Bounds:     lbBounds(opt),
+		Rule:       lbRule,
+		Assume:     lbAssume,
+		NoEvidence: true,
+	}
+	lbres := lb.run()
+	lbrc := lb.finish(lbres, "translation_validation", nil)
+	rc := lr.finish(lr.run(), map[string]interface{}{"layer_b_sibling_family": lb.LastCov})
+	if rc == 0 {
+		return lbrc
+	}
+	return rc
 }
